@@ -179,6 +179,14 @@ def run(ctx):
     ]
     ctx.lean(props=["Props.C16"], drivers=["drv_c16"])
     ctx.harness("./cmd/c16", overlay=OVERLAY)
+    if "overlay_fallback" in ctx.extra:
+        # the white-box hooks name private identifiers of rate/limiter.go; when they no longer compile the harness is
+        # built black-box (tag nooverlay): ticks are observed through a hidden capacity-0 child and its capacity-1
+        # children (go/cmd/c16/hooks_stub.go); the `window` lines, which have to hold the controller's lock, are output as
+        # `inconclusive` (not compared).  Burst lock-step and both stress oracles run as usual.
+        ctx.extra["skipped_areas"] = ["window (forced Close-vs-tick schedules: needs the white-box lock hooks)"]
+        ctx.assumptions.append("black-box fallback build: ticks observed through the public API only (hidden sentinel "
+                               "limiters that never carry usage); area window skipped")
     _mask_inconclusive(ctx)
     _cheap_minimise(ctx)
     period = "200" if ctx.tier == "quick" else "120"
